@@ -9,7 +9,7 @@
    setOutcome calls (failedToStart / setOutcome / failed / assert / failRemaining) and of
    recordSideband calls.  client_runner.go is the scripted interface, not modelled.
    The loop is structural recursion over the batch: no fuel.  No proofs here. *)
-From V Require Export Base C11_Consts C11_Proc C11_Start C11_Printer.
+From V Require Export Base C11_Consts C11_Proc C11_Start C11_Printer C11_InProc.
 Open Scope N_scope.
 
 (* ---------- outcomes ---------- *)
@@ -423,9 +423,44 @@ Definition run_c11_start (sc : sx) : option sx :=
     | None => ret (L [sx_bool false; I 0%Z; sx_bool false; I 0%Z; I 0%Z; I 0%Z])
     end.
 
+(* mode 6: the real runTestCasesForServer over a REAL server process that gives up by itself:
+   (flavour when code k n own) -> (in-time passes setups (lines handed to the error printer))
+   flavour 0 a real OS child of runCommand (cmdProcess), 1 a server function under runInProcess (isReferenceServer:
+   its stderr is parsed; C11_InProc gives the stream) · when 0 it gives up at once (the request cannot be written),
+   1 after it has read the request (no response), 2 after the handshake when k sendRequest calls have returned (k > n:
+   never) · code 0 exit status 0 / nil, else an exit status / the scripted error · own lines it writes itself first *)
+Definition run_c11_live (sc : sx) : option sx :=
+  match sc with
+  | L [I fl; I wh; I code; I k; I n; I own] =>
+    if ((fl <? 0) || (1 <? fl) || (wh <? 0) || (2 <? wh) || (code <? 0) || (125 <? code) || (k <? 0) || (9 <? k)
+        || (n <? 0) || (8 <? n) || (own <? 0) || (3 <? own)
+        || ((fl =? 0) && (negb (wh =? 2) || negb (own =? 0)))
+        || ((wh =? 2) && (k <? 1)) || (negb (wh =? 2) && negb (k =? 0)))%Z
+    then None
+    else
+      let cs := plain_cases (Z.to_nat n) in
+      let inproc := (fl =? 1)%Z in
+      let clean := (code =? 0)%Z in
+      let goes := (negb (wh =? 2) || (k <=? n))%Z in        (* it is gone before the runner asks it to stop *)
+      let im := mkImpl (own_lines (Z.to_nat own)) (if clean then None else Some scripted_error) in
+      let sv := mkServer true (if (wh =? 0)%Z then WWriteErr else WOk)
+                         (if (wh =? 2)%Z then RValid false else RBad) false
+                         (noticed_dead WdAlways clean (if ((wh =? 2) && (k <=? n))%Z then Some (Z.to_nat k) else None))
+                         inproc false
+                         (if inproc then inproc_stream im else []) clean in
+      let r := run_batch false sv cs in
+      let pk := if inproc then PLocal (mkLc goes (Some 0) (negb clean))
+                else PCmd (mkChild (if goes then Some (Z.to_N code) else None) (TExit 0 0) None true false) in
+      let t := batch_stop_time (code_params c11_wait_delay_ms) pk r in
+      ret (L [sx_bool (in_time t); sx_nat (one_count KPass cs r); sx_nat (one_count KSetup cs r);
+              L (map B r.(r_fwd))])
+  | _ => None
+  end.
+
 Definition run_c11_proc (args : list sx) : sx :=
   or_bad (match args with
   | [I 5%Z; I 1%Z; sc] => run_c11_start sc
+  | [I 6%Z; I 1%Z; sc] => run_c11_live sc
   | [I mode; I k; sc] =>
     do ps <- un_pscript sc;
     let ch := child_of ps in
